@@ -23,6 +23,9 @@ func init() {
 func runC14(r *Run, p *Prog) {
 	// L8: every accepted connection ends when the serving context is cancelled: the per-connection read is interruptible
 	siblingRules(r, p, "C17", []string{"D1", "D2", "D3", "D5"}, "L8")
+	// L9: ... and nothing else in the handler waits for the peer: the accepted connection is read and written only
+	// through the context-aware wrapper (a lingering-close drain, a raw copy loop are not interruptible)
+	siblingRules(r, p, "C10", []string{"S9"}, "L9")
 	ro := DiscoverRoles(p)
 	T, cg := ro.T, ro.CG
 	m := BuildServeModel(p, ro)
@@ -317,6 +320,9 @@ func runC14(r *Run, p *Prog) {
 			r.Unresolved("L5", "Service.Shutdown")
 			return
 		}
+		// (in its inlined view: the two effects may live in one helper - `return s.state.stop()`)
+		sd = p.Inlined(sd, nil)
+		cg.AddView(sd)
 		ec := newEffectCache(p, T)
 		isStop := func(in ssa.Instruction) bool { return ec.zeroes(in, svcF.Running) }
 		isClose := func(in ssa.Instruction) bool { return ec.closesListener(in) }
@@ -343,7 +349,7 @@ func runC14(r *Run, p *Prog) {
 		r.Ob("L5", shortName(sd), "Shutdown acts synchronously (starts no goroutine)", sd.Pos(), nogo, "Shutdown defers its work to a goroutine: it can return before the listener is closed")
 		// Shutdown may be issued at any moment, also by a method handler: it waits for nothing the serving call or a
 		// handler has to provide (no channel operation, no WaitGroup/Cond wait, no sleep) besides the mutex
-		sdv := p.Inlined(sd, nil)
+		sdv := sd
 		var blocker ssa.Instruction
 		for _, b := range sdv.Blocks {
 			for _, in := range b.Instrs {
@@ -376,6 +382,9 @@ func runC14(r *Run, p *Prog) {
 			r.Unresolved("L6", "Service.Bind")
 			return
 		}
+		// (in its inlined view: the flag may be read through a getter - `s.state.phase() == phaseRunning`)
+		bind = p.Inlined(bind, nil)
+		cg.AddView(bind)
 		n := 0
 		for _, b := range bind.Blocks {
 			for _, s := range b.Succs {
